@@ -463,6 +463,12 @@ int main(int argc, char** argv)
             else B = random_root(int(i));
             if (sel == 2) rec.count("roots:sparse-material-mate-in-one");
         }
+        else if (PROP == "C09" && i % 4 == 1)
+        {
+            // forced mates: the iteration that first sees the mate must still respect the depth limit
+            B = (i % 8 == 1) ? mate_candidate() : sparse_mate_in_one();
+            rec.count("roots:mate-positions");
+        }
         else
             B = random_root(int(i));
         std::vector<orc::Move> legal = B.legal();
